@@ -16,6 +16,8 @@
 (*                 coefficients in Coefs: trapezium rule = closed-form integral.          *)
 (*  data2          every 2-D grid with <= MaxData2 nodes x every data over Vals: cell sum *)
 (*                 = tensor nodal-weight form; square_trapezium = trapezium of squares.   *)
+(*  fine1 / fine2  grids with a fine part (nearly uniform grids): the split sums H + L/2^F of   *)
+(*                 Mesh.tla equal the unsplit integer sums on the grid scaled by 2^K.     *)
 (* With Emit = TRUE every final state prints one JSON case (spec -> implementation).     *)
 EXTENDS Mesh, TLC, Json
 CONSTANTS Coords, MaxN, NVs, LinNV, Shapes1, Shapes2, LawShapes2, Vals, Coefs, Depth, IScale, MaxData2, Modes, Emit, Positional
@@ -169,7 +171,7 @@ Init ==
      \/ /\ "store1" \in Modes /\ d = 0 /\ t = T("store1", Zero4, 2)
         /\ \E nx \in Shapes1, nv \in NVs : m = New1(CanonX(nx), nv)
      \/ /\ d = Depth
-        /\ \E mode \in Modes \cap {"data1", "lin1", "data2", "lin2"} : t = T(mode, Zero4, 0)
+        /\ \E mode \in Modes \cap {"data1", "lin1", "data2", "lin2", "fine1", "fine2"} : t = T(mode, Zero4, 0)
         /\ \E xn \in AllGrids : m = New1(xn, 1)
 
 NextStore == /\ d < Depth /\ t.stage = 2
@@ -203,7 +205,22 @@ NextLaw == /\ t.stage < 2 /\ UNCHANGED <<d, hist>>
                  /\ \E nv \in LinNV, co \in CoTuples :
                        /\ t' = [t EXCEPT !.stage = 2, !.co = co]
                        /\ m' = Apply2(New2(m.xn, m.yn, nv), LAMBDA X, Y : Bil(co, X, Y), nv - 1)
-Next == NextStore \/ NextLaw
+\* grids with a fine part (Mesh.tla, Split): fine numerators from a few patterns, K in 0..3, data with both signs
+FinePats(n) == {[k \in 1..n |-> 0], [k \in 1..n |-> k % 2], [k \in 1..n |-> (3 * k) % 4]}
+FineKs == 0..3
+NextFine == /\ t.stage < 2 /\ UNCHANGED <<d, hist>>
+            /\ \/ /\ t.mode = "fine1" /\ t.stage = 0 /\ t' = [t EXCEPT !.stage = 2]
+                  /\ \E k \in FineKs, f \in FinePats(N1(m)) :
+                        m' = [xn |-> m.xn, xf |-> f, kx |-> k, nv |-> 2,
+                              vars |-> [i \in 1..N1(m) |-> <<Cyc(i), Cyc(i) - 2>>]]
+               \/ /\ t.mode = "fine2" /\ t.stage = 0 /\ t' = [t EXCEPT !.stage = 1]
+                  /\ \E yn \in AllGrids : /\ Len(m.xn) * Len(yn) <= MaxData2
+                                          /\ m' = New2(m.xn, yn, 1)
+               \/ /\ t.mode = "fine2" /\ t.stage = 1 /\ t' = [t EXCEPT !.stage = 2]
+                  /\ \E k1 \in FineKs, k2 \in FineKs, f \in FinePats(NX(m)), g \in FinePats(NY(m)) :
+                        m' = [xn |-> m.xn, yn |-> m.yn, xf |-> f, yf |-> g, kx |-> k1, ky |-> k2, nv |-> 2,
+                              vars |-> [i \in 1..NX(m) |-> [j \in 1..NY(m) |-> <<Cyc(i + j), i + 2 * j - 4>>]]]
+Next == NextStore \/ NextLaw \/ NextFine
 Spec == Init /\ [][Next]_vars
 View == <<t, m, d>>
 
@@ -222,6 +239,21 @@ LinExact == /\ (t.mode = "lin1" /\ t.stage = 2) => /\ Trap1x2(m, m.nv - 1) = Lin
                                     /\ \A k \in 0..(m.nv - 2) : Trap2x4(m, k) = 0
                                     /\ \A a \in 0..(NX(m) - 1), b \in 0..(NY(m) - 1) :
                                           Get2(m, a, b)[m.nv] = Bil(t.co, m.xn[a + 1], m.yn[b + 1])
+\* the split result H + L / 2^F of the fine-grid sums equals the unsplit sum on the grid scaled by 2^K
+Unsplit(xn, xf, k) == [i \in 1..Len(xn) |-> xn[i] * (2 ^ k) + xf[i]]
+FineLaws ==
+  /\ (t.mode = "fine1" /\ t.stage = 2) =>
+        \A v \in 0..(m.nv - 1) : LET HL == Trap1x2F(m, v)
+                                  IN /\ 0 <= HL[2] /\ HL[2] < 2 ^ m.kx
+                                     /\ Trap1x2([m EXCEPT !.xn = Unsplit(m.xn, m.xf, m.kx)], v) = HL[1] * (2 ^ m.kx) + HL[2]
+  /\ (t.mode = "fine2" /\ t.stage = 2) =>
+        LET U == [m EXCEPT !.xn = Unsplit(m.xn, m.xf, m.kx), !.yn = Unsplit(m.yn, m.yf, m.ky)]
+            F == 2 ^ (m.kx + m.ky)
+        IN \A v \in 0..(m.nv - 1) :
+              LET HL == Trap2x4F(m, v)
+                  SQ == SqTrap2x4F(m, v)
+              IN /\ 0 <= HL[2] /\ HL[2] < F /\ Trap2x4(U, v) = HL[1] * F + HL[2]
+                 /\ 0 <= SQ[2] /\ SQ[2] < F /\ SqTrap2x4(U, v) = SQ[1] * F + SQ[2]
 \* spec -> implementation: one case per final state
 EmitCase == (Emit /\ d = Depth /\ t.stage = 2) =>
               PrintT(<<"CASE", ToJson([mode |-> t.mode, co |-> t.co, xn |-> m.xn, yn |-> IF Is2(m) THEN m.yn ELSE <<>>,
